@@ -4,7 +4,7 @@
 # A scratch worktree of /repo gets the patch, a scratch copy of /verif runs the checks against it.
 set -u
 PATCH="$1"; shift
-S=/tmp/mutrun
+S=${S:-/tmp/mutrun}
 mkdir -p $S
 if [ ! -d $S/repo ]; then git -C /repo worktree add --detach $S/repo HEAD -q; fi
 git -C $S/repo checkout -q --detach $(git -C /repo rev-parse HEAD) 2>/dev/null
